@@ -9,7 +9,7 @@ _QUICK_BASES = 8
 _THOROUGH_BASES = 64
 
 SPEC = {
-    "runs": [run("e1-recogniser", "c09_w3c", "asan", _QUICK_BASES * 68 + 20000, _THOROUGH_BASES * 68 + 4000000,
+    "runs": [run("e1-recogniser", "c09_w3c", "asan", _QUICK_BASES * 68 + 20000, _THOROUGH_BASES * 68 + 3000000,
                  need_lib=False,
                  sources=["harness/c09_w3c.cc"],
                  tier_params={"quick": {"enum_bases": _QUICK_BASES}, "thorough": {"enum_bases": _THOROUGH_BASES, "variants_per_case": 12}})],
